@@ -3,6 +3,8 @@ from __future__ import annotations
 
 import itertools
 
+import os
+
 import pyglove as pg
 
 from mc import dnaspecs as D
@@ -156,6 +158,10 @@ def case_item(rec, item):
       a, b = live_obs[key], rec_obs.get(key)
       if key == 'population' and not in_order:
         a, b = sorted(map(repr, a)), sorted(map(repr, b))
+      if key == 'inner_counts' and a is not None and b is not None and a[1] == b[1] and b[0] <= a[0]:
+        # draws of the inner generator that the wrapper rejected as duplicates are not proposals of the search: they are not
+        # in the history, so the recovered inner generator may have proposed fewer (never more, and the same feedbacks)
+        continue
       if a != b:
         rec.viol(f'state:{key}/{base}', f'crash after {k} proposals ({len(live.rewarded)} feedbacks): uninterrupted {key}={a!r}, '
                  f'recovered {key}={b!r}', tr)
@@ -190,6 +196,86 @@ def case_item(rec, item):
     rec.trans += 1
 
 
+# ---------------------------------------------------------------------------
+# recovery in a NEW process (what a crash really is): the history goes through a file, the recovering interpreter is fresh
+# ---------------------------------------------------------------------------
+CHILD_CODE = """
+import json, sys
+sys.path.insert(0, '/verif')
+import pyglove as pg
+from mc import dnaspecs as D
+from mc.props import c15
+job = json.load(open(sys.argv[1]))
+factory, determined, multi, _ = c15.ALGOS[job['algo']]
+spec = D.mk(c15.SPACES[job['space']])
+algo = factory()
+algo.setup(spec)
+history = [(pg.from_json_str(js), r if not isinstance(r, list) else tuple(r)) for js, r in job['history']]
+algo.recover(history)
+counts = [algo.num_proposals, algo.num_feedbacks]
+run = c15.Run(algo, spec, multi, job['lag'], False)
+run.proposed = [h[0] for h in history]
+run.at_proposal = [pg.to_json_str(h[0]) for h in history]
+run.rewarded = {i: r for i, (_, r) in enumerate(history) if r is not None}
+out = []
+for _ in range(job['more']):
+  try:
+    out.append(c15.proposal_view(run.step(), True))
+  except Exception as e:
+    out.append('EXC:' + type(e).__name__)
+print('RESULT ' + json.dumps(dict(cont=out, counts=counts)))
+"""
+
+
+def xproc_item(rec, item):
+  import json
+  import subprocess
+  import sys
+  import tempfile
+  aname, sname, k, lag = item
+  factory, determined, multi, _ = ALGOS[aname]
+  spec = D.mk(SPACES[sname])
+  live = Run(factory(), spec, multi, lag, False)
+  live.algo.setup(spec)
+  for _ in range(k):
+    if live.step() is None:
+      break
+  if len(live.proposed) < k:
+    return
+  history = [(pg.to_json_str(dna), live.rewarded.get(i)) for i, dna in enumerate(live.proposed)]
+  counts = [live.algo.num_proposals, live.algo.num_feedbacks]
+  more = 3
+  cont_live = []
+  for _ in range(more):
+    try:
+      cont_live.append(proposal_view(live.step(), True))
+    except Exception as e:  # pylint: disable=broad-except
+      cont_live.append('EXC:' + type(e).__name__)
+  tr = dict(kind='xproc', algo=aname, space=sname, k=k, lag=lag)
+  with tempfile.NamedTemporaryFile('w', suffix='.json', delete=False) as f:
+    json.dump(dict(algo=aname, space=sname, lag=lag, more=more, history=history), f)
+    path = f.name
+  try:
+    p = subprocess.run([sys.executable, '-c', CHILD_CODE, path], capture_output=True, text=True, timeout=300,
+                       env=dict(os.environ, PYTHONHASHSEED='0', PYTHONPATH='/verif'))
+  finally:
+    os.unlink(path)
+  rec.evals += 1
+  rec.trans += 1
+  line = [l for l in p.stdout.splitlines() if l.startswith('RESULT ')]
+  if p.returncode != 0 or not line:
+    rec.viol(f'recovery-in-new-process-fails/{aname}', f'k={k} lag={lag}: exit {p.returncode}: {p.stderr[-300:]}', tr)
+    return
+  got = json.loads(line[0][7:])
+  want = json.loads(json.dumps(dict(cont=cont_live, counts=counts)))
+  if got != want:
+    rec.viol(f'recovery-in-new-process-differs/{aname}', f'crash after {k} proposals (lag {lag}), history through a file, recovery in a fresh '
+             f'interpreter: uninterrupted run has counts {want["counts"]} and continues with {want["cont"]!r}; the recovered process has '
+             f'{got["counts"]} and continues with {got["cont"]!r}', tr)
+  else:
+    rec.nt(('xproc', aname, sname, k, lag))
+
+
 def items(tier):
   out = []
   n_max = 8 if tier == 'thorough' else 6
@@ -203,7 +289,19 @@ def items(tier):
   return out
 
 
+def xproc_items(tier):
+  out = []
+  for aname, (_, determined, _, spaces) in ALGOS.items():
+    if not determined:
+      continue
+    for k in ((2, 4) if tier != 'thorough' else (1, 2, 3, 4, 5, 6)):
+      for lag in (0, 1):
+        out.append((aname, spaces[0], k, lag))
+  return out
+
+
 def run(ctx):
+  ctx.pmap(xproc_item, xproc_items(ctx.tier), chunk=1)
   ctx.level = 'fault_enumeration'
   ctx.rule = ('for every algorithm configuration (Sweeping, seeded Random incl. seed 0, Deduping wrappers, regularized '
               'evolution, hill climb, NSGA2, NEAT, Deduping over evolution with/without auto reward) x space x feedback lag '
@@ -224,4 +322,6 @@ def run(ctx):
 
 
 def replay(rec, data):
+  if data.get('kind') == 'xproc':
+    return xproc_item(rec, (data['algo'], data['space'], data['k'], data['lag']))
   case_item(rec, (data['algo'], data['space'], data['k'], data['lag'], data['swap'], data['persist'], 'thorough'))
